@@ -41,9 +41,8 @@ if __name__ != "__main__":
 
 VERSIONS = {128: (6, 2, 0), 80: (5, 1, 60)}
 FUEL = 60
-GUARD = None               # does the checked tree carry repair C20-1 (read cycle -> MalformedInputError)?  probed
 CASE_TIMEOUT = 25.0        # a non-cyclic case that takes longer counts as a hang
-CYCLE_TIMEOUT = 4.0
+CYCLE_TIMEOUT = 10.0       # a tree with a read cycle must raise well within this
 LANES = 4
 
 
@@ -553,7 +552,7 @@ def model_request(case, m):
             continue
         entries.append((key(posixpath.join(d, n)), file_text(fl)))
     fs = ",".join(hx(k) + "=" + (hx(v) or "-") for k, v in entries)
-    return "%s %d %d %s %s %s" % ("readallg" if GUARD else "readall", case["W"], FUEL, hx(cwd), hx(top_arg), fs)
+    return "readall %d %d %s %s %s" % (case["W"], FUEL, hx(cwd), hx(top_arg), fs)
 
 
 def parse_model(ans):
@@ -585,7 +584,7 @@ def corr_equal(model, real, timeout):
     if "raw" in model:
         return False
     if timeout:
-        return model["err"] == "outoffuel"
+        return False          # the model always terminates (C20_terminates): a hang is never matched
     if model["err"] != real["err"]:
         return False
     return model["message"] == real["message"] and model["title"] == real["title"] and model["ys"] == real["ys"]
@@ -655,9 +654,9 @@ def oracle(case, res, m):
     if cyc:
         if syn["err"] == "ok":
             fails.append({"kind": "cycle-read-without-error"})
-        elif GUARD and syn["err"] not in ("MalformedInputError", "FileNotFoundError", "ParsingError"):
+        elif syn["err"] not in ("MalformedInputError", "FileNotFoundError", "ParsingError"):
             fails.append({"kind": "cycle-reported-as", "got": syn["err"]})
-        if GUARD and full.get("err") in (None, "ok"):
+        if full.get("err") in (None, "ok"):
             fails.append({"kind": "cycle-read-without-error-by-read_input", "got": full.get("err")})
         return fails
     if case.get("missing"):
@@ -764,7 +763,7 @@ def abs_paths(syn, cwd):
     return out
 
 
-CYCLE_CASE = {
+CYCLE_CASE = {      # the minimal cycle (corpus/C20/fixed-read-cycle.json)
     "kind": "cycle", "W": 128, "title": "a file that reads itself", "message": None,
     "top_blocks": [[{"lines": ["1 0 -1 imp:n=1"], "read": None}], [{"lines": ["1 so 5"], "read": None}],
                    [{"lines": ["read file=cy2.i"], "read": "cy2.i"}]],
@@ -772,24 +771,6 @@ CYCLE_CASE = {
                         "tail": [], "final_newline": True, "eol": "\n"}},
     "after": None, "top_eol": "\n", "topdir": "root", "top_mode": "abs", "idx": -1,
 }
-
-
-def probe_guard(scratch):
-    """which of the two drain loops does the checked tree have?  (a hang within the deadline = the old one)"""
-    global GUARD
-    m = materialise(CYCLE_CASE, os.path.join(scratch, "probe"))
-    m0 = materialise(without_cycles(CYCLE_CASE), os.path.join(scratch, "probe0"))
-    lane = Lane()
-    try:
-        # warm the worker up (interpreter start, import montepy) before the deadline of the cyclic read counts
-        lane.run({"id": -1, "cwd": m0["cwd"], "top": m0["top_arg"], "version": [6, 2, 0], "out": m0["out"],
-                  "twice": False, "full": True, "flat": None}, CASE_TIMEOUT)
-        res = lane.run({"id": 0, "cwd": m["cwd"], "top": m["top_arg"], "version": [6, 2, 0], "out": m["out"],
-                        "twice": False, "full": False, "flat": None}, CYCLE_TIMEOUT)
-    finally:
-        lane.stop()
-    GUARD = (not res.get("timeout")) and res.get("syn", {}).get("err") == "MalformedInputError"
-    return GUARD, res
 
 
 def without_cycles(case):
@@ -823,7 +804,7 @@ def without_cycles(case):
 # ---------------------------------------------------------------------------- one case, end to end
 def job_of(case, m, cid):
     cyc = has_cycle(case)
-    hang = cyc and not GUARD
+    hang = False
     job = {"id": cid, "cwd": m["cwd"], "top": m["top_arg"], "version": list(VERSIONS[case["W"]]),
            "out": m["out"], "twice": not hang, "full": not hang, "flat": m["flat"]}
     if not hang:
@@ -840,7 +821,7 @@ def check_cases(cases, scratch, tag):
         m = materialise(case, base)
         ms.append(m)
         jobs.append(job_of(case, m, k))
-        tos.append(CYCLE_TIMEOUT if (has_cycle(case) and not GUARD) else CASE_TIMEOUT)
+        tos.append(CYCLE_TIMEOUT if has_cycle(case) else CASE_TIMEOUT)
     reqs = [model_request(c, m) for c, m in zip(cases, ms)]
     th_res = {}
 
@@ -991,7 +972,6 @@ def replay(ctx, path):
     try:
         ok, _ = vlib.coq_make(["Model/ReadQ.vo"])
         os.makedirs(scratch, exist_ok=True)
-        probe_guard(scratch)
         corr, fails, res, model = case_fails(case, scratch, "r")
     finally:
         shutil.rmtree(scratch, ignore_errors=True)
@@ -1028,9 +1008,6 @@ def run(ctx):
     try:
         vlib.model_ask("ReadQ", ["dirname 2f"])       # builds the extracted binary
         tlog(t0, "model binary")
-        guard, pres = probe_guard(scratch)
-        tlog(t0, "guard probed: %s" % guard)
-        dist["cycle_guard_present"] = bool(guard)
         # ---- small correspondences
         bad, sstats, xreqs, xans = small_correspondences(ctx, n_small)
         if bad:
